@@ -138,6 +138,22 @@ Proof.
   assert ((c_maxhops c <=? p_hops s)%Z = false) as -> by (apply Z.leb_gt; exact Hh).
   rewrite andb_false_r. reflexivity.
 Qed.
+(* dispatch order of extractOutlinks: the S3 listing decoder only gets XML content types other
+   than XHTML, so a page whose Content-Type does not contain "xml", or is application/xhtml+xml,
+   has its anchors taken by the HTML extractor whatever the Server header says *)
+Variable s3_out : list bytes.
+Lemma outlinks_dispatch_lemma :
+  forall (server ctype : bytes) (c : cfg) (s : pstate) (page : bytes) (dom : list node),
+  containsb (bs "xml") ctype = false \/ is_xhtml ctype = true ->
+  post_outlinks_resp onclick_url resolve_url true dc_match page_links s3_out server ctype c s page dom
+  = post_outlinks onclick_url resolve_url true dc_match page_links c s page dom.
+Proof.
+  intros server ctype c s page dom Hct.
+  unfold post_outlinks_resp, post_outlinks_resp_gen, post_outlinks, is_s3.
+  assert (s3_server server && containsb (bs "xml") ctype && negb (is_xhtml ctype) = false) as ->.
+  { destruct Hct as [-> | ->]; [rewrite andb_false_r; reflexivity|apply andb_false_r]. }
+  destruct (post_stops true c s || negb (should_outlinks c s)); reflexivity.
+Qed.
 End Outlinks.
 
 (* ---------- the next pass *)
@@ -219,6 +235,24 @@ Proof.
   exists (Cfg [] false true 1%Z), (PState 200%Z 0%Z true 0%Z false).
   exists [Elem (bs "html") [] [Elem (bs "body") [] [Elem (bs "a") [(bs "href", bs "/probe/target")] [Text (bs "x")]]]].
   exists (Elem (bs "a") [(bs "href", bs "/probe/target")] [Text (bs "x")]), (bs "/probe/target").
+  split; [simpl; auto|].
+  split; [repeat split; discriminate|].
+  split; [reflexivity|]. split; [reflexivity|]. split; reflexivity.
+Qed.
+
+(* IsS3 as found claimed an XHTML page served by an S3-like store: its anchors were lost *)
+Lemma s3_xhtml_orig_refuted :
+  exists (c : cfg) (s : pstate) (dom : list node) (e : node) (u : bytes),
+    In e (all_elems dom) /\ anchor c e u
+    /\ post_stops_fixed c s = false /\ (p_hops s < c_maxhops c)%Z
+    /\ post_outlinks_resp_orig (fun _ => None) (fun _ x => Some x) true (fun _ => false) [] []
+         (bs "AmazonS3") (bs "application/xhtml+xml") c s (bs "https://site.example.com/p.html") dom = []
+    /\ post_outlinks_resp (fun _ => None) (fun _ x => Some x) true (fun _ => false) [] []
+         (bs "AmazonS3") (bs "application/xhtml+xml") c s (bs "https://site.example.com/p.html") dom = [u].
+Proof.
+  exists (Cfg [] false false 1%Z), (PState 200%Z 0%Z true 0%Z false).
+  exists [Elem (bs "html") [] [Elem (bs "body") [] [Elem (bs "a") [(bs "href", bs "/next")] [Text (bs "x")]]]].
+  exists (Elem (bs "a") [(bs "href", bs "/next")] [Text (bs "x")]), (bs "/next").
   split; [simpl; auto|].
   split; [repeat split; discriminate|].
   split; [reflexivity|]. split; [reflexivity|]. split; reflexivity.
